@@ -255,7 +255,7 @@ var c16Lists = []string{"To", "Bto", "CC", "BCC", "Audience"}
 
 func checkC16(w *World, c *Check, tier string) {
 	c.Exhaustive = true
-	c.Explanation = "Decides the structural clauses of flattening: (cover) in the closure of the Flatten*Properties entry points each of the fifteen flattened properties (actor, target, result, origin, instrument, object, attributedTo, replies, likes, shares; to, bto, cc, bcc, audience) is reassigned from a flattener applied to that same property of the same value — no property is flattened from another one and none is skipped; (frame) no other property of a vocabulary struct is written anywhere in those closures; (guard) every flattener that can replace an item by an identifier (a value obtained from GetLink/GetID of its argument) does so only on the true side of both an is-object test and a non-empty test of that identifier, so plain IRIs, links and id-less embedded objects are returned unchanged; (nil) by abstract interpretation the flatteners return nil-likes unchanged or as nil without faulting. (align) a positional overwrite of list members takes its position from a loop over that very list. NOT decided: idempotence, equality of the produced IRI with the id for concrete values."
+	c.Explanation = "Decides the structural clauses of flattening: (cover) in the closure of the Flatten*Properties entry points each of the fifteen flattened properties (actor, target, result, origin, instrument, object, attributedTo, replies, likes, shares; to, bto, cc, bcc, audience) is reassigned from a flattener applied to that same property of the same value — no property is flattened from another one and none is skipped; (frame) no other property of a vocabulary struct is written anywhere in those closures; (guard) every flattener that can replace an item by an identifier (a value obtained from GetLink/GetID of its argument) does so only on the true side of both an is-object test and a non-empty test of that identifier, so plain IRIs, links and id-less embedded objects are returned unchanged; (nil) by abstract interpretation the flatteners return nil-likes unchanged or as nil without faulting. (align) a positional overwrite of list members takes its position from a loop over that very list. (every-exit) in each Flatten*Properties entry point every flattening site lies on every path to a return except the nil side of a test of the argument. (Normalize) ItemCollection.Normalize returns nil, the list or one of its members. NOT decided: idempotence, equality of the produced IRI with the id for concrete values."
 	c.RuleText = "15 properties x {cover} + frame scan + guard obligations per identifier-returning flattener; exhaustive"
 	c.Trusted = []string{"go/ssa", "apcheck prov.go, abstract interpreter"}
 	c.floor("C16.cover", 15)
@@ -363,6 +363,108 @@ func checkC16(w *World, c *Check, tier string) {
 	}
 	c.ok("C16.frame", "closure", "-", fmt.Sprintf("%d field stores in the flattening closures examined", len(assigns)))
 
+	// ---- every exit: inside a Flatten*Properties entry point the flattening of each property — the reassignment itself,
+	// or the call that hands the value on to the entry point of the embedded struct — lies on every path to a return,
+	// except the paths taken for a nil argument. An early return ("both actor and object are IRIs already: nothing to
+	// do") skips the properties behind it for the values that take it. FlattenProperties dispatches by type name and
+	// is decided by C16.dispatch instead. ----
+	isRoot := map[*ssa.Function]bool{}
+	for _, r := range roots {
+		isRoot[r] = true
+	}
+	reachesFlattening := func(f *ssa.Function) bool {
+		for _, g := range w.Reach([]*ssa.Function{f}, nil) {
+			if isRoot[g] {
+				return true
+			}
+			for _, a := range assigns {
+				if a.fn == g {
+					return true
+				}
+			}
+		}
+		return false
+	}
+	for _, r := range roots {
+		if r.Name() == "FlattenProperties" || len(r.Params) != 1 {
+			continue
+		}
+		type site struct {
+			in   ssa.Instruction
+			what string
+		}
+		var sites []site
+		for _, a := range assigns {
+			if a.fn == r && len(a.target.Idx) == 1 {
+				sites = append(sites, site{a.instr, a.target.Names[0]})
+			}
+		}
+		for _, call := range callsIn(r) {
+			cal := call.Common().StaticCallee()
+			if cal == nil || !w.InPkg(cal) {
+				continue
+			}
+			if isRoot[cal] && cal != r {
+				sites = append(sites, site{call, cal.Name()})
+				continue
+			}
+			for _, a := range call.Common().Args {
+				var fn *ssa.Function
+				switch x := unwrap(a).(type) {
+				case *ssa.MakeClosure:
+					fn, _ = x.Fn.(*ssa.Function)
+				case *ssa.Function:
+					fn = x
+				}
+				if fn != nil && reachesFlattening(fn) {
+					sites = append(sites, site{call, cal.Name() + "(…flattening…)"})
+				}
+			}
+		}
+		lh := loopHeaders(r)
+		nsites := 0
+		for _, st := range sites {
+			if len(lh[st.in.Block()]) > 0 {
+				continue // a table-driven loop: whether the loop runs for every row is C16.cover's table reading
+			}
+			nsites++
+			// search a path entry → return that avoids the site's block and takes no nil edge of a test on the argument
+			seenB := map[*ssa.BasicBlock]bool{}
+			work := []*ssa.BasicBlock{r.Blocks[0]}
+			var escaped *ssa.BasicBlock
+			for len(work) > 0 && escaped == nil {
+				b := work[len(work)-1]
+				work = work[:len(work)-1]
+				if seenB[b] || b == st.in.Block() {
+					continue
+				}
+				seenB[b] = true
+				if len(b.Instrs) > 0 {
+					if _, isRet := b.Instrs[len(b.Instrs)-1].(*ssa.Return); isRet {
+						escaped = b
+						break
+					}
+					if iff, ok := b.Instrs[len(b.Instrs)-1].(*ssa.If); ok && isNilTestCond(iff.Cond) {
+						if nilSide, ok := nilSideOf(iff.Cond, r.Params[0]); ok {
+							work = append(work, b.Succs[1-nilSide])
+							continue
+						}
+					}
+				}
+				work = append(work, b.Succs...)
+			}
+			key := "every-exit:" + funcName(r) + ":" + st.what
+			if escaped != nil {
+				c.bad("C16.cover", key, w.InstrPos(escaped.Instrs[len(escaped.Instrs)-1]), fmt.Sprintf("%s can return for a non-nil argument without passing the flattening of %s (at %s): the values that take that path keep their embedded objects there", funcName(r), st.what, w.InstrPos(st.in)))
+			} else {
+				c.ok("C16.cover", key, w.InstrPos(st.in), "on every path to a return for a non-nil argument")
+			}
+		}
+		if nsites == 0 {
+			c.bad("C16.cover", "every-exit:"+funcName(r), w.FuncPos(r), "no flattening site found in this entry point (undecided)")
+		}
+	}
+
 	// ---- siblings: within one entry point, properties of the same Go type are flattened by the same helper ----
 	byFn := map[*ssa.Function]map[string]map[string][]string{} // fn -> type kind -> helper -> fields
 	for _, a := range assigns {
@@ -405,6 +507,86 @@ func checkC16(w *World, c *Check, tier string) {
 			}
 			c.bad("C16.siblings", key, w.FuncPos(fn), fmt.Sprintf("%s flattens sibling %s properties with different helpers (%s): the helpers differ in which shapes they replace (single item vs list of items), so the odd property keeps embedded objects the others replace", funcName(fn), kind, strings.Join(odd, "; ")))
 		}
+	}
+
+	// ---- normalize: what Flatten hands a flattened list to — ItemCollection.Normalize — gives back nil, the list itself
+	// or one of its members, never something computed from the members: "a list of nothing but references is handed
+	// back as its IRI list" turns the Link members (left as they are by the flatteners) into their hrefs ----
+	if nz := w.Method("ItemCollection", "Normalize"); nz != nil && len(nz.Params) == 1 {
+		var fromList func(v ssa.Value, d int) bool
+		fromList = func(v ssa.Value, d int) bool {
+			if d > 8 {
+				return false
+			}
+			switch x := v.(type) {
+			case *ssa.Const:
+				return x.IsNil()
+			case *ssa.Parameter:
+				return x == nz.Params[0]
+			case *ssa.MakeInterface:
+				return fromList(x.X, d+1)
+			case *ssa.ChangeType:
+				return fromList(x.X, d+1)
+			case *ssa.ChangeInterface:
+				return fromList(x.X, d+1)
+			case *ssa.Slice:
+				return fromList(x.X, d+1)
+			case *ssa.Phi:
+				for _, e := range x.Edges {
+					if !fromList(e, d+1) {
+						return false
+					}
+				}
+				return true
+			case *ssa.UnOp:
+				if x.Op == token.MUL {
+					if ia, ok := x.X.(*ssa.IndexAddr); ok {
+						return fromList(ia.X, d+1)
+					}
+					if al, ok := x.X.(*ssa.Alloc); ok {
+						sts := storesTo(al)
+						for _, st := range sts {
+							if !fromList(st.Val, d+1) {
+								return false
+							}
+						}
+						return len(sts) > 0
+					}
+				}
+			case *ssa.Extract:
+				// the value of a range over the list
+				if nx, ok := x.Tuple.(*ssa.Next); ok {
+					if rg, ok := nx.Iter.(*ssa.Range); ok {
+						return x.Index == 2 && fromList(rg.X, d+1)
+					}
+				}
+			}
+			return false
+		}
+		n := 0
+		for _, rb := range returnBlocks(nz) {
+			ret := rb.Instrs[len(rb.Instrs)-1].(*ssa.Return)
+			if len(ret.Results) != 1 {
+				continue
+			}
+			n++
+			key := fmt.Sprintf("Normalize:result#%d", n)
+			if fromList(ret.Results[0], 0) {
+				c.ok("C16.noinvent", key, w.InstrPos(ret), "nil, the list or one of its members")
+			} else {
+				what := shortVal(ret.Results[0])
+				var inner ssa.Value = ret.Results[0]
+				if mi, ok := inner.(*ssa.MakeInterface); ok {
+					inner = mi.X
+				}
+				if call, ok := inner.(*ssa.Call); ok && call.Common().StaticCallee() != nil {
+					what = "the result of " + funcName(call.Common().StaticCallee())
+				}
+				c.bad("C16.noinvent", "Normalize:result:computed", w.InstrPos(ret), fmt.Sprintf("ItemCollection.Normalize can return %s, which is neither nil, the list itself nor one of its members: flattening hands every flattened list through it, so members (a Link that the flatteners leave as it is) come back as something else", what))
+			}
+		}
+	} else {
+		c.bad("C16.noinvent", "anchor:Normalize", "-", "ItemCollection.Normalize not found")
 	}
 
 	// ---- noinvent: the identifiers that flattening (and de-duplication, on which the list variant is built) put into
@@ -1562,4 +1744,47 @@ func closureValue(v ssa.Value) *ssa.MakeClosure {
 		}
 	}
 	return nil
+}
+
+// nilSideOf: for a nil test on v (v == nil, v != nil, IsNil(v), !…), the successor index taken when v is nil.
+func nilSideOf(cond ssa.Value, v ssa.Value) (int, bool) {
+	switch x := cond.(type) {
+	case *ssa.UnOp:
+		if x.Op == token.NOT {
+			if s, ok := nilSideOf(x.X, v); ok {
+				return 1 - s, true
+			}
+		}
+	case *ssa.BinOp:
+		var other ssa.Value
+		switch {
+		case isNilConst(x.X):
+			other = x.Y
+		case isNilConst(x.Y):
+			other = x.X
+		default:
+			return 0, false
+		}
+		if unwrap(other) != v {
+			return 0, false
+		}
+		if x.Op == token.EQL {
+			return 0, true
+		}
+		if x.Op == token.NEQ {
+			return 1, true
+		}
+	case *ssa.Call:
+		cal := x.Common().StaticCallee()
+		if cal == nil || len(x.Common().Args) != 1 || unwrap(x.Common().Args[0]) != v {
+			return 0, false
+		}
+		if cal.Name() == "IsNil" {
+			return 0, true
+		}
+		if cal.Name() == "IsNotNil" {
+			return 1, true
+		}
+	}
+	return 0, false
 }
